@@ -31,11 +31,12 @@ proper_prefix = z3.Function("is_proper_prefix", StrS, StrS, BoolS)
 
 def crash_hook(I, outcome, heap0, heap1):
     c = I.c
-    disk_old = heap0.get("ghost.disk", StrS)
+    # what a restart would have found before this save: a missing file counts as the empty registry (C14 creates it)
+    disk_old = z3.If(heap0.get("ghost.file_exists", BoolS), heap0.get("ghost.disk", StrS), z3.StringVal(""))
     vnew = z3.Int("view_being_saved")
     goals = []
     effects = getattr(c, "fs_effects", [])
-    written = [d for k, d, h in effects if k in ("write-in-progress", "write-complete", "partial-write") and d is not None]
+    written = [d for k, d, h in effects if k in ("write-in-progress", "write-complete", "partial-write", "write-other-complete", "write-other-in-progress") and d is not None]
     hyps = [loadable(disk_old)]
     for s in written:
         hyps.append(z3.And(loadable(s), view_of(s) == vnew))
@@ -43,19 +44,22 @@ def crash_hook(I, outcome, heap0, heap1):
     def ok(content):
         return z3.Implies(z3.And(*hyps), z3.And(loadable(content), z3.Or(view_of(content) == view_of(disk_old), view_of(content) == vnew)))
     seen = {}
-    if any(k == "partial-write" for k, d, h in effects):
+    if any(k in ("partial-write", "partial-write-other") for k, d, h in effects):
         # a write that *fails* (OSError) is a fault, not a crash: the property quantifies over crash points of a save that is running normally
-        effects = [e for e in effects if e[0] == "open-truncate"]
+        cut = [i for i, e in enumerate(effects) if e[0].startswith("partial-write")][0]
+        effects = effects[:cut]
     for kind, detail, snap in effects:
         n = seen.get(kind, 0)
         seen[kind] = n + 1
-        if kind == "open-truncate":
-            goals.append((f"C15/crash@open-truncate[{n}]", "property", ok(z3.StringVal(""))))
-        elif kind == "write-in-progress":
+        exists = snap.get("ghost.file_exists", BoolS)
+        disk = snap.get("ghost.disk", StrS)
+        # what a restart finds: a missing file is created empty (C14) = loads as the empty registry, like an empty file
+        found = z3.If(exists, disk, z3.StringVal(""))
+        if kind == "write-in-progress":
             p = c.fresh("prefix_on_disk", StrS)
             goals.append((f"C15/crash@{kind}[{n}]", "property", z3.Implies(proper_prefix(p, detail), ok(p))))
-        elif kind in ("write-complete", "close"):
-            goals.append((f"C15/crash@{kind}[{n}]", "property", ok(snap.get("ghost.disk", StrS))))
+        else:
+            goals.append((f"C15/crash@{kind}[{n}]", "property", ok(found)))
     if not effects and outcome == "normal":
         goals.append(("C15/save-has-file-effects", "property", z3.BoolVal(False)))
     return goals
@@ -69,60 +73,123 @@ def build(world):
     return gu.mk([(persistence_c.PQ + "save[crash-points]", persistence_c.PQ + "save", ct, None, (), None)])
 
 
-def native_crash():
-    """Replay: save a registry, then crash a second save right after the file was opened for writing."""
+def native_crash(only_new=False):
+    """Replay / bounded stand-in: save registry {1}, then crash a save of {1, 2} before every file-system operation it performs and
+    right after every open-for-writing; after each crash the file must load to {1} or {1, 2}.  Returns the failing crash points."""
     native.import_repo()
+    import aiofiles.os as aos
     import aiofiles.threadpool as tp
+    import os as _os
     from aiomysensors.model.node import Node
     from aiomysensors.persistence import Persistence
-    d = tempfile.mkdtemp(prefix="c15_")
-    try:
-        path = os.path.join(d, "p.json")
+
+    class Crash(BaseException):
+        pass
+    fails = []
+    base = tempfile.mkdtemp(prefix="c15_")
+    state = {"n": 0, "crash_at": None, "ops": []}
+    orig = {"sync_open": tp.sync_open}
+    for nm in ("replace", "rename", "remove", "unlink"):
+        orig["aos." + nm] = getattr(aos, nm)
+        orig["os." + nm] = getattr(_os, nm)
+
+    def point(desc):
+        i = state["n"]
+        state["n"] += 1
+        state["ops"].append(desc)
+        if state["crash_at"] == i:
+            raise Crash()
+
+    def w_open(*a, **k):
+        mode = k.get("mode", a[1] if len(a) > 1 else "r")
+        if any(ch in mode for ch in "wax+"):
+            point(f"before open({_os.path.basename(str(a[0]))}, {mode!r})")
+            f = orig["sync_open"](*a, **k)
+            try:
+                point(f"after open({_os.path.basename(str(a[0]))}, {mode!r})")
+            except Crash:
+                f.close()
+                raise
+            return f
+        return orig["sync_open"](*a, **k)
+
+    def w_os(nm):
+        def f(*a, **k):
+            point(f"before os.{nm}({', '.join(_os.path.basename(str(x)) for x in a)})")
+            return orig["os." + nm](*a, **k)
+        return f
+
+    def w_aos(nm):
+        async def f(*a, **k):
+            point(f"before aiofiles.os.{nm}({', '.join(_os.path.basename(str(x)) for x in a)})")
+            return await orig["aos." + nm](*a, **k)
+        return f
+
+    def patch(on):
+        tp.sync_open = w_open if on else orig["sync_open"]
+        for nm in ("replace", "rename", "remove", "unlink"):
+            setattr(aos, nm, w_aos(nm) if on else orig["aos." + nm])
+            setattr(_os, nm, w_os(nm) if on else orig["os." + nm])
+
+    def scenario(crash_at):
+        d = tempfile.mkdtemp(dir=base)
+        path = _os.path.join(d, "p.json")
         nodes = {1: Node(1, 17, "2.2")}
         p = Persistence(nodes, path)
         native.run(p.save())
         nodes[2] = Node(2, 17, "2.2")
-
-        class Crash(BaseException):
-            pass
-        orig = tp.sync_open
-
-        def crashing_open(*a, **k):
-            f = orig(*a, **k)
-            f.close()
-            raise Crash()
-        tp.sync_open = crashing_open
+        state.update(n=0, crash_at=crash_at, ops=[])
+        patch(True)
         try:
             try:
                 native.run(p.save())
             except Crash:
                 pass
         finally:
-            tp.sync_open = orig
+            patch(False)
+        if crash_at is None:
+            return None
         after = {}
         try:
             native.run(Persistence(after, path).load())
         except Exception as e:  # noqa: BLE001
-            return {"crash_point": "after open(path, 'w')", "observed": f"file unreadable: {type(e).__name__}"}
+            return f"file unreadable: {type(e).__name__}"
         if sorted(after) not in ([1], [1, 2]):
-            return {"crash_point": "after open(path, 'w')", "observed": f"file loads to registry {sorted(after)}; last saved [1], being saved [1, 2]"}
+            return f"file loads to registry {sorted(after)}; last saved [1], being saved [1, 2]; directory: {sorted(_os.listdir(d))}"
         return None
+    try:
+        scenario(None)
+        ops = list(state["ops"])
+        for i, desc in enumerate(ops):
+            r = scenario(i)
+            if r:
+                known = desc.startswith("after open(p.json, 'w')")
+                if not (only_new and known):
+                    fails.append({"crash_point": desc, "observed": r, "known_window": known,
+                                  "clause": "C15/crash@open-truncate[0]" if known else f"C15/native-crash@{desc}"})
     finally:
+        patch(False)
         import shutil
-        shutil.rmtree(d, ignore_errors=True)
+        shutil.rmtree(base, ignore_errors=True)
+    return fails
 
 
 def replay(world, ob):
-    f = native_crash()
-    return dict(f, confirmed=True) if f else {"confirmed": False}
+    fails = native_crash()
+    want_known = ob["name"] in ("C15/crash@open-truncate[0]", "C15/crash@write-in-progress[0]")
+    for f in fails:
+        if f["known_window"] == want_known:
+            return dict(f, confirmed=True)
+    return {"confirmed": False, "native_crash_points_failing": fails}
 
 
 def bounded(world, tier, seed, rep):
-    f = native_crash()
-    # the native crash replay reproduces the recorded finding; it is reported through the obligations, not as an engine disagreement
-    return {"label": "bounded", "scope": "one crash point (right after open for writing) on a real file", "evaluations": 1, "native_failure_recorded": f}
+    fails = native_crash()
+    new = [f for f in fails if not f["known_window"]]
+    # the known truncate window is reported through the obligations (known finding); any *other* failing crash point must have been reported by the prover
+    return {"label": "bounded", "scope": "a crash before every file-system operation of one save and right after every open-for-writing, on real files",
+            "evaluations": len(fails) + 1, "native_failure": new[0] if new else None, "known_window_reproduced": [f for f in fails if f["known_window"]][:1]}
 
 
 def bounded_search(world, unit_name):
-    f = native_crash()
-    return [dict(f, clause="C15/crash@open-truncate[0]")] if f else []
+    return native_crash()
